@@ -81,6 +81,7 @@ func c13allocs() uint64 {
 	return c13sample[0].Value.Uint64()
 }
 
+var c13t0 = time.Now()
 var c13brs = map[int]*bufio.Reader{}
 
 // c13eval runs one decoder on in+EOF and reports outcome, allocated bytes and
@@ -491,6 +492,9 @@ func (s *c13state) explore(layer string, tokens []string, riskyMaxDepth func(tok
 					return
 				}
 			}
+		}
+		if os.Getenv("C13_DEBUG") != "" {
+			fmt.Fprintf(os.Stderr, "%s depth %d: level %d, next(in-proc) %d, child jobs %d, evals %d, t=%.1fs\n", layer, depth, len(level), len(next), len(jobs), r.Evaluations, time.Since(c13t0).Seconds())
 		}
 		if len(jobs) > 0 {
 			const batch = 2000
